@@ -13,6 +13,10 @@ A session program is dict(name=..., flags={db_session kwargs}, ops=[op, ...]); o
   ('r', o, attr)             value = obj.attr                                        (noted as read)
   ('w', o, attr, src)        obj.attr = F_t(value read from obj.src)  /  src None: a constant of thread t (blind write)
   ('del', o) ('new', o) ('flush',) ('commit',)
+                             an explicit commit() in the MIDDLE of a program makes the db_session a sequence of
+                             transactions (note 'committed' when it returns): locks end there, the identity map and the
+                             values the session has read stay. The monitors work per transaction (View.txns) and the
+                             stale-read monitor spans the whole db_session.
   ('refetch', o)             select(a for a in A if a.id == o)[:]  - the row is read again and compared with what the
                              session has read (obj.load() would be a no-op: it only loads attributes not loaded yet)
 
@@ -66,6 +70,12 @@ def P(name, *ops, **flags):
 
 def sclass(prog):
     """class of a session program for signatures: how it protects itself"""
+    ops = prog['ops']
+    if any(op[0] == 'commit' for op in ops[:-1]):          # the db_session goes on after an explicit commit()
+        first = [i for i, op in enumerate(ops) if op[0] == 'commit'][0]
+        created = any(op[0] == 'new' for op in ops[:first])
+        base = sclass(dict(prog, ops=[op for op in ops if op[0] != 'commit']))
+        return 'multi-transaction %s%s' % ('created-object ' if created else '', base)
     f = prog['flags']
     if f.get('serializable'): return 'serializable'
     if f.get('optimistic') is False: return 'non-optimistic'
@@ -129,7 +139,7 @@ def interpret(t, prog, orm, A, note):
             o = op[1]
             objs[o] = A(**new_row(ti, o)); note('new', o)
         elif k == 'flush': orm.flush()
-        elif k == 'commit': orm.commit()
+        elif k == 'commit': orm.commit(); note('committed')
         elif k == 'refetch':
             o = op[1]
             if o not in objs: objs[o] = A[o]
@@ -170,6 +180,25 @@ class View(object):
         self.commit_steps = [[] for _ in range(n)]
         for j in self.change_steps: self.commit_steps[x.trace[j][0]].append(j)
         self.final = self.rows[-1]
+        # transactions of every session: an explicit commit() that returned (note 'committed') closes one; the
+        # last one is closed by the end of the db_session and is committed iff the session ended normally
+        self.txns = [[] for _ in range(n)]
+        for t in range(n):
+            lo, cur = -1, []
+            def close(hi, committed, t=t):
+                steps = [j for j in self.commit_steps[t] if lo < j <= hi]
+                self.txns[t].append(dict(notes=list(cur), committed=committed, lo=lo, hi=hi, steps=steps,
+                                         commit_step=steps[-1] if steps else None))
+            for step, d in self.notes[t]:
+                if d[0] == 'committed':
+                    close(step, True)
+                    lo, cur = step, []
+                else: cur.append((step, d))
+            close(len(x.trace), self.ok[t])
+    def txn_of(self, t, j):
+        for tr in self.txns[t]:
+            if tr['lo'] < j <= tr['hi']: return tr
+        return self.txns[t][-1]
     def of(self, t, kind):
         return [(step, d) for step, d in self.notes[t] if d[0] == kind]
     def last_end(self, t):
@@ -194,23 +223,25 @@ def changed_columns(before, after):
 
 # ---- monitors (each returns a list of (signature-tail, message)) ---------------------------------------
 def mon_commit_attribution(v):
-    """(iii) committed rows change only in a 'commit' transition of a session that ends successfully;
-    a successful session that wrote something has such a transition"""
+    """(iii) committed rows change only in a 'commit' transition of a transaction that ends successfully (the
+    session's normal end or an explicit commit() that returned); a successfully committed transaction that wrote
+    something has such a transition"""
     out = []
     for j in v.change_steps:
         t, lab = v.x.trace[j]
         name = v.progs[t]['name']
         if lab[0] != 'commit':
             out.append(('rows-changed-outside-commit|%s|%s' % (sclass(v.progs[t]), lab[0]), 'step %d %r changed committed rows' % (j, lab)))
-        elif not v.ok[t]:
+        elif not v.txn_of(t, j)['committed']:
             out.append(('failed-session-left-trace|%s|%s' % (sclass(v.progs[t]), v.res[t].get('cls')),
                         'session T%d failed with %s but its commit at step %d changed rows: %r'
                         % (t, v.res[t].get('cls'), j, sorted(changed_columns(v.rows[j], v.rows[j + 1])))))
     for t in range(v.n):
-        wrote = [d for _, d in v.notes[t] if d[0] in ('w', 'new')]      # a DELETE of an already deleted row is a legitimate no-op
-        if v.ok[t] and wrote and not v.commit_steps[t]:
-            out.append(('successful-session-committed-nothing|%s' % sclass(v.progs[t]),
-                        'session T%d ended normally after %r but no commit of it changed rows' % (t, wrote[:3])))
+        for tr in v.txns[t]:
+            wrote = [d for _, d in tr['notes'] if d[0] in ('w', 'new')]      # a DELETE of an already deleted row is a legitimate no-op
+            if tr['committed'] and wrote and not tr['steps']:
+                out.append(('successful-session-committed-nothing|%s' % sclass(v.progs[t]),
+                            'session T%d committed normally after %r but no commit of it changed rows' % (t, wrote[:3])))
     return out
 
 def compose(v):
@@ -219,10 +250,11 @@ def compose(v):
     state = {o: dict(r) for o, r in v.rows[0].items()}
     exempt, problems = set(), []
     v.culprits = {}          # (o, attr) -> classes of the sessions that committed a value computed from a stale read
-    order = sorted((v.commit_steps[t][-1], t) for t in range(v.n) if v.ok[t] and v.commit_steps[t])
-    for _, t in order:
+    order = sorted((tr['commit_step'], t, k) for t in range(v.n) for k, tr in enumerate(v.txns[t])
+                   if tr['committed'] and tr['steps'])
+    for _, t, k in order:
         view = {o: dict(r) for o, r in state.items()}
-        for _, d in v.notes[t]:
+        for _, d in v.txns[t][k]['notes']:
             if d[0] == 'w':
                 _, o, attr, new, src = d
                 if o not in view:
@@ -258,30 +290,39 @@ def mon_composition(v, counters):
     return out
 
 def mon_stale_read(v, counters):
-    """(i) a successful session that updated o: every attribute it read from o and did not overwrite still
-    had the value it read when its update was committed (unless excluded from optimistic checks / o locked /
-    non-optimistic session - then the lock window monitor and the composition speak)"""
+    """(i) a successfully committed transaction that updated o: every attribute the SESSION read from o (in this or an
+    earlier transaction of the same db_session - the cached value is what the session goes on working with) and did
+    not overwrite still had the value it read last when the update was committed (unless excluded from optimistic
+    checks). Locks need no special case: while a lock is held nobody else commits a change, and a lock ends with
+    its transaction. An attribute the session itself wrote in an earlier transaction is known only if read again."""
     out = []
     for t in range(v.n):
-        if not v.ok[t] or not v.commit_steps[t]: continue
-        c = v.commit_steps[t][-1]
-        before = v.rows[c]
-        written = {}
-        for _, d in v.notes[t]:
-            if d[0] == 'w': written.setdefault(d[1], set()).add(d[2])
-        for step, d in v.of(t, 'r'):
-            _, o, attr, val = d
-            if o not in written or attr in written[o] or step >= c: continue
-            cur = before.get(o, {}).get(attr, '<row deleted>')
-            if cur != val:
-                if attr in CONTROL_OCE:
-                    counters['control_changed_silently'] = counters.get('control_changed_silently', 0) + 1
-                else:
-                    how = [op[0] for op in v.progs[t]['ops'] if op[0] in ('selq', 'getby') and op[-1] == attr] or ['attribute']
-                    out.append(('stale-read-committed|%s|%s read via %s' % (sclass(v.progs[t]), KIND[attr], how[0]),
-                                'T%d read A[%s].%s = %r, updated A[%s] and committed although the committed value had become %r'
-                                % (t, o, attr, val, o, cur)))
-            else: counters['reads_still_valid_at_commit'] = counters.get('reads_still_valid_at_commit', 0) + 1
+        known = {}                       # (o, attr) -> value the session read last (own writes of earlier transactions forget it)
+        for k, tr in enumerate(v.txns[t]):
+            c = tr['commit_step']
+            written = {}
+            for _, d in tr['notes']:
+                if d[0] == 'w': written.setdefault(d[1], set()).add(d[2])
+            for step, d in tr['notes']:
+                if d[0] == 'r' and (c is None or step < c): known[(d[1], d[2])] = d[3]
+            if tr['committed'] and c is not None:
+                before = v.rows[c]
+                for (o, attr), val in sorted(known.items()):
+                    if o not in written or attr in written[o]: continue
+                    cur = before.get(o, {}).get(attr, '<row deleted>')
+                    if cur != val:
+                        if attr in CONTROL_OCE:
+                            counters['control_changed_silently'] = counters.get('control_changed_silently', 0) + 1
+                        else:
+                            how = [op[0] for op in v.progs[t]['ops'] if op[0] in ('selq', 'getby') and op[-1] == attr] or ['attribute']
+                            out.append(('stale-read-committed|%s|%s read via %s' % (sclass(v.progs[t]), KIND[attr], how[0]),
+                                        'T%d read A[%s].%s = %r, updated A[%s] and committed although the committed value had become %r'
+                                        % (t, o, attr, val, o, cur)))
+                    else: counters['reads_still_valid_at_commit'] = counters.get('reads_still_valid_at_commit', 0) + 1
+            for _, d in tr['notes']:
+                if d[0] == 'w': known.pop((d[1], d[2]), None)
+                elif d[0] == 'del': 
+                    for key in [key for key in known if key[0] == d[1]]: known.pop(key)
     return out
 
 def mon_spurious(v, counters):
